@@ -279,6 +279,9 @@ def child_env(prop, extra=None):
     e.update(SAN_ENV)
     if prop.get("needs_locale"):
         e["LOCPATH"] = build_locale()
+        # glibc keeps setlocale()/LOCPATH bookkeeping allocated until __libc_freeres; LeakSanitizer's at-exit
+        # scan reports it.  Leaks of the code under test are caught per case (allocation + locale-object accounting).
+        e["ASAN_OPTIONS"] = e["ASAN_OPTIONS"].replace("detect_leaks=1", "detect_leaks=0")
         e.pop("LC_ALL", None)
         e.pop("LANG", None)
     if extra:
